@@ -12,18 +12,18 @@ Proof. constructor.
   - intros func jit kd bs. cbn [e_entry enc_amd64]. destruct (branch oc func jit) as [b|] eqn:B; cbn [enc_of_opt]; [|discriminate].
     intros H. injection H as <-. pose proof (branch_len _ _ _ _ B). unfold zlen. lia. Qed.
 
-Lemma alloc_loop_nonnull strict k fuel : kernel_nonnull k -> forall s start src size s',
-  alloc_loop strict k fuel s start src size <> (s', AFound 0).
-Proof. intros KN. induction fuel as [|fuel IH]; intros s start src size s'; cbn [alloc_loop]; [discriminate|].
-  destruct (start <=? src + RANGE); [|discriminate]. unfold do_mmap.
+Lemma alloc_loop_nonnull strict k fuel : kernel_nonnull k -> forall s acc start src size s' acc',
+  alloc_loop strict k fuel s acc start src size <> (s', acc', AFound 0).
+Proof. intros KN. induction fuel as [|fuel IH]; intros s acc start src size s' acc'; cbn [alloc_loop]; [discriminate|].
+  destruct (start <=? src + RANGE); [|discriminate]. unfold mmap_core.
   destruct (k_mmap k (o_calls s) start size) as [a|] eqn:K; [|apply IH].
-  destruct (if strict then _ else _); [|apply IH]. intros H. injection H as _ ->. eapply KN; eauto. Qed.
+  destruct (if strict then _ else _); [|apply IH]. intros H. injection H as _ _ ->. eapply KN; eauto. Qed.
 Lemma alloc_jit_nonnull strict k : kernel_nonnull k -> alloc_nonnull (alloc_jit strict) k.
 Proof. intros KN s src size s'. unfold alloc_jit.
-  destruct (alloc_loop strict k ALLOC_FUEL s _ src size) as [s1 [a| |]] eqn:A; try discriminate.
-  intros H. injection H as -> ->. eapply alloc_loop_nonnull; eauto. Qed.
+  destruct (alloc_loop strict k ALLOC_FUEL s [] _ src size) as [[s1 acc] [a| |]] eqn:A; try discriminate.
+  intros H. injection H as _ ->. eapply alloc_loop_nonnull; eauto. Qed.
 Lemma alloc_given_nonnull k : kernel_nonnull k -> alloc_nonnull alloc_given k.
-Proof. intros KN s src size s'. unfold alloc_given, do_mmap.
+Proof. intros KN s src size s'. unfold alloc_given, do_mmap, mmap_core.
   destruct (k_mmap k (o_calls s) _ size) as [a|] eqn:K; [|discriminate]. intros H. injection H as _ ->. eapply KN; eauto. Qed.
 
 (* ---- never a fault, never an abort, when mprotect does not fail and spans every page ---- *)
@@ -57,3 +57,15 @@ Lemma restore_lifo_same_case :
   let rep := lifetime (cfg_amd64 true) true true (k_seq 0x500000 0x501000) (os0 (fun _ => 0x90)) (fun _ => 0) two_installs in
   r_exit rep = XNormal /\ read (o_mem (r_os rep)) 0x401000 12 = read (fun _ => 0x90) 0x401000 12 /\ o_owned (r_os rep) = [] /\ o_dirty (r_os rep) = [].
 Proof. vm_compute. repeat split; reflexivity. Qed.
+
+(* C07: without the reset at installation (pinned tree) the second lifetime through the same
+   fake!(.., times: 1) call site is over-called by its first call; with the reset it is not. *)
+Definition v1 : verifier := {| v_ctr := 0; v_exp := 1 |}.
+Definition one_call_lifetime := [OpInstall 0x401000 (KExec 0x402000) (Some v1); OpCall (Some v1) true].
+Definition exits (reset:bool) : list exit :=
+  let '(_, _, reps) := lifetimes (cfg_amd64 true) reset true (kernel_fixed 0x500000) (os0 (fun _ => 0x90)) (fun _ => 0)
+                         [one_call_lifetime; one_call_lifetime] in map r_exit reps.
+Lemma fresh_count_refuted_pinned : exits false = [XNormal; XPanic POverCalled].
+Proof. vm_compute. reflexivity. Qed.
+Lemma fresh_count_fixed_same_case : exits true = [XNormal; XNormal].
+Proof. vm_compute. reflexivity. Qed.
